@@ -111,6 +111,7 @@ type Pred struct {
 	Moved bool
 	// PostStateUnknown: the session state after this request is not determined by the model
 	PostStateUnknown bool
+	valueUnknown     bool
 }
 
 var reInput = regexp.MustCompile(`^\+?[a-zA-Z0-9].*$`)
@@ -265,6 +266,11 @@ func (m *Model) refresh(p *Pred, sym, input string) (string, *stepErr) {
 	m.Calls[sym]++
 	p.Events = append(p.Events, Ev{Kind: "call", Sym: sym, Lang: m.evLang, Input: input, LangUnknown: m.LangUnknown})
 	r := f.Result(m.Calls[sym], []byte(input), m.evLang)
+	if m.LangUnknown && f.Kind == "idlang" {
+		// the language was "reset" with an empty code: what a language-dependent function is called with is
+		// don't-care, and so is everything that depends on its result
+		p.valueUnknown = true
+	}
 	if r.Err {
 		m.Flags[fLOADFAIL] = true
 		return "", &stepErr{msg: fmt.Sprintf("error %s:%d", sym, r.Status), known: true}
@@ -316,6 +322,14 @@ func (m *Model) first(p *Pred, input string) {
 
 // Request predicts one request (persisted-engine semantics).
 func (m *Model) Request(input string) *Pred {
+	p := m.request(input)
+	if p.valueUnknown {
+		p.FlushDontCare, p.PageKnown, p.PostStateUnknown = true, false, true
+	}
+	return p
+}
+
+func (m *Model) request(input string) *Pred {
 	p := &Pred{}
 	// an engine that still has to run its pre-VM function stops right there when the session is terminated
 	// (before it looks at ResetOnEmptyInput)
